@@ -937,3 +937,77 @@ Section UpdateSec.
     destruct k; vm_compute in Hr; injection Hr as <-; cbn [eval_req] in He; rewrite He; reflexivity.
   Qed.
 End UpdateSec.
+
+(** * The three gated methods without a family model, and the underscore
+      entry points (Model/WitnessSmall.v) *)
+From Verif Require Model.WitnessSmall.
+Section SmallSec.
+  (** container.startContainerEstimation / stopContainerEstimation *)
+  Definition sm_key (o : WitnessSmall.sop) : mkey :=
+    match o with
+    | WitnessSmall.SStart _ _ => (KContainer, "startContainerEstimation", 1%nat)
+    | WitnessSmall.SStop _ _ => (KContainer, "stopContainerEstimation", 1%nat)
+    end.
+  Definition to_sop (c : ctx) (a : args) (o : WitnessSmall.sop) : WitnessSmall.sop :=
+    match o with
+    | WitnessSmall.SStart _ e => WitnessSmall.SStart (alpha_of c a) e
+    | WitnessSmall.SStop _ e => WitnessSmall.SStop (alpha_of c a) e
+    end.
+
+  Lemma inert_Estimation_signals {S : Type} (s : S) c a o r :
+    required (sm_key o) = Some r -> eval_req c a r = false ->
+    WitnessSmall.sstep s (to_sop c a o) = (s, VFault, []).
+  Proof.
+    intros Hr He. destruct o as [x e|x e]; vm_compute in Hr; injection Hr as <-;
+      change (alpha_of c a = false) in He; unfold to_sop, WitnessSmall.sstep, WitnessSmall.sexec;
+      rewrite He; reflexivity.
+  Qed.
+
+  (** alphabet.vote *)
+  Definition to_vctx (c : ctx) (a : args) (epoch index : Z) (accepts : bytes -> bool) : WitnessSmall.vctx :=
+    WitnessSmall.mkVC (alpha_of c a) epoch index accepts.
+
+  Lemma inert_Vote target c a cur index accepts epoch cands r :
+    required (KAlphabet, "vote", 2%nat) = Some r -> eval_req c a r = false ->
+    WitnessSmall.vote_step target (to_vctx c a cur index accepts) epoch cands = (target, VFault).
+  Proof.
+    intros Hr He. vm_compute in Hr. injection Hr as <-. change (alpha_of c a = false) in He.
+    unfold WitnessSmall.vote_step, WitnessSmall.vote_exec, to_vctx. cbn [WitnessSmall.v_alpha].
+    rewrite He. reflexivity.
+  Qed.
+
+  (** [_deploy] / [_initialize]: every [RNever] row is a method the platform
+      refuses to call, so its body is never entered. *)
+  Definition never_rows_ok (x : mkey * req) : bool :=
+    let '((_, m, _), r) := x in
+    if req_eqb r RNever then negb (WitnessSmall.vm_callable m) else WitnessSmall.vm_callable m.
+
+  Lemma table_never_rows : forallb never_rows_ok table = true.
+  Proof. vm_compute. reflexivity. Qed.
+
+  Lemma never_not_callable k m n :
+    required (k, m, n) = Some RNever -> WitnessSmall.vm_callable m = false.
+  Proof.
+    intros Hr. apply lookup_In in Hr.
+    pose proof table_never_rows as Ht. rewrite forallb_forall in Ht. specialize (Ht _ Hr).
+    cbn [never_rows_ok req_eqb] in Ht. apply negb_true_iff in Ht. exact Ht.
+  Qed.
+
+  Lemma inert_Underscore {S N : Type} k m n r c a (body : S -> outcome (S * val * list N)) s :
+    required (k, m, n) = Some r -> r = RNever -> eval_req c a r = false /\
+    WitnessSmall.vm_invoke m body s = (s, VFault, []).
+  Proof.
+    intros Hr ->. split; [reflexivity|]. unfold WitnessSmall.vm_invoke.
+    rewrite (never_not_callable k m n Hr). reflexivity.
+  Qed.
+
+  (** ... and every other row IS callable: the rule refuses nothing else. *)
+  Lemma other_rows_callable k m n r :
+    required (k, m, n) = Some r -> r <> RNever -> WitnessSmall.vm_callable m = true.
+  Proof.
+    intros Hr Hn. apply lookup_In in Hr.
+    pose proof table_never_rows as Ht. rewrite forallb_forall in Ht. specialize (Ht _ Hr).
+    cbn [never_rows_ok] in Ht. destruct (req_eqb r RNever) eqn:E; [|exact Ht].
+    exfalso. apply Hn. destruct r; cbn in E; try discriminate E; reflexivity.
+  Qed.
+End SmallSec.
